@@ -75,7 +75,7 @@ func (p *Path) havoc(t types.Type, name string, depth int) Value {
 		}
 		return zero(t)
 	case *types.Pointer:
-		if p.bounds["havoc_nil"] == 1 {
+		if p.bounds["havoc_nil"] == 1 && p.nilDepthOK(depth) {
 			if p.namedChoice(name+"$nil", 2) == 1 {
 				return (*Value)(nil)
 			}
@@ -150,6 +150,24 @@ func (p *Path) enumBudget() bool {
 		return false
 	}
 	p.state["havoc_enum_used"] = n + 1
+	return true
+}
+
+// nilDepthOK: pointers deeper than havoc_nil_depth (default: unlimited) are always allocated.
+func (p *Path) nilDepthOK(depth int) bool {
+	if p.state["havoc_no_nil"] == true {
+		return false
+	}
+	if b, ok := p.bounds["havoc_nil_depth"]; ok && depth > b {
+		return false
+	}
+	if b, ok := p.bounds["havoc_nil_fields"]; ok {
+		n, _ := p.state["havoc_nil_used"].(int)
+		if n >= b {
+			return false
+		}
+		p.state["havoc_nil_used"] = n + 1
+	}
 	return true
 }
 
@@ -306,6 +324,7 @@ func init() {
 			// request documents: enum-typed strings range over their declared constants (plus one other value)
 			p.state["havoc_enums"] = true
 			p.state["havoc_enum_used"] = 0
+			p.state["havoc_nil_used"] = 0
 			v := p.havoc(ptrT.Elem(), name, 0)
 			p.state["havoc_enums"] = false
 			storeInto(target, v)
@@ -318,7 +337,12 @@ func init() {
 	reg(func(p *Path, fr *frame, fn *ssa.Function, a []Value) Value {
 		dst := a[0].(Iface)
 		ptrT := dst.T.Underlying().(*types.Pointer)
-		storeInto(dst.V.(*Value), p.havoc(ptrT.Elem(), strArg(a[1]), 0))
+		// values the harness asks for directly (backend results, caller attributes) follow the producer's contract:
+		// pointers are allocated; absent (nil) elements are explored for decoded request documents only
+		p.state["havoc_no_nil"] = true
+		v := p.havoc(ptrT.Elem(), strArg(a[1]), 0)
+		p.state["havoc_no_nil"] = false
+		storeInto(dst.V.(*Value), v)
 		return nil
 	}, zz+"Havoc")
 	// zzvf.Opaque(kind, v…): an opaque byte sequence standing for an encoded document
